@@ -25,11 +25,58 @@ SHARDS = {"quick": 1, "thorough": 16}
 MIN_DISTINCT = {"quick": 400, "thorough": 40000}
 
 
-class Lendable(list):
-    pass
+class Lendable(object):
+    """a user class: receiving a reference to an instance makes the receiver ask the owner for the class's methods (INSPECT)"""
+
+    def __init__(self, tag):
+        self.tag = tag
+
+    def __len__(self):
+        return 3
+
+
+class PumpWaiter(object):
+    """held delivery, single driver - but when a side blocks inside a nested synchronous exchange (the INSPECT that creating a
+    proxy of a user class needs) the other side is served until that exchange completes. Everything else stays under the
+    driver's control."""
+
+    def __init__(self):
+        self.net = None
+        self.conns = None
+        self.pumped = 0
+
+    def wait(self, pred, timeout, what=None):
+        if pred():
+            return True
+        if timeout is not None and timeout <= 0:
+            return False
+        me = what[1] if what else None
+        other_dir, my_dir = ("A->B", "B->A") if me == "A" else ("B->A", "A->B")
+        other = self.conns["B" if me == "A" else "A"]
+        for _ in range(200):
+            moved = False
+            if self.net.deliver_frame(other_dir):
+                other.serve(0)
+                moved = True
+                self.pumped += 1
+            if self.net.deliver_frame(my_dir):
+                moved = True
+            if pred():
+                return True
+            if not moved:
+                break
+        raise vnet.Stalled("blocking wait (%r) that pumping the peer cannot satisfy" % (what,))
+
+    def notify(self):
+        pass
+
+    def yield_point(self, what=None):
+        pass
 
 
 def make_object(kind, tag):
+    if kind == 4:
+        return Lendable(tag)
     if kind == 0:
         return [tag]
     if kind == 1:
@@ -47,7 +94,11 @@ class World(object):
         import rpyc
         from rpyc.core import consts
         self.consts = consts
-        self.net, self.a, self.b = vnet.make_pair(rpyc.VoidService(), rpyc.VoidService(), held=True)
+        pump = PumpWaiter() if 4 in kinds else None
+        self.net, self.a, self.b = vnet.make_pair(rpyc.VoidService(), rpyc.VoidService(), held=True, waiter=pump)
+        if pump is not None:
+            pump.net, pump.conns = self.net, {"A": self.a, "B": self.b}
+        self.pump = pump
         self.objs = [make_object(kinds[i], "obj%d" % i) for i in range(nobj)]        # owned by A
         self.wr = [weakref.ref(o) if not isinstance(o, (list, dict, bytearray)) else None for o in self.objs]
         self.idp = [None] * nobj
@@ -218,7 +269,7 @@ def use_proxies(ctx, w, rng):
         walk(v)
         for p in flat[:1]:
             idp = tuple(object.__getattribute__(p, "____id_pack__"))
-            if idp[0] in ("builtins.list", "builtins.dict", "builtins.bytearray"):
+            if idp[0] in ("builtins.list", "builtins.dict", "builtins.bytearray") or idp[0].endswith(".Lendable"):
                 ar = w.b.async_request(w.consts.HANDLE_CALLATTR, p, "__len__", (), ())
                 results.append((slot, ar))
         del flat
@@ -236,6 +287,8 @@ def use_proxies(ctx, w, rng):
 def run_history(ctx, rng, idx, script=None):
     nobj = rng.randrange(3, 5)
     kinds = [rng.randrange(4) for _ in range(nobj)]
+    if script is None and idx % 3 == 0:
+        kinds[rng.randrange(nobj)] = 4          # a user-class instance: unboxing it needs a nested INSPECT exchange
     gc.disable()
     w = World(nobj, kinds)
     steps = []
@@ -313,6 +366,9 @@ def run_history(ctx, rng, idx, script=None):
     for key, what in bad:
         ctx.violation("C10/" + key, what, dict(steps=[list(s) for s in steps], kinds=kinds))
     ctx.count("crossings", crossings)
+    if w.pump is not None:
+        ctx.count("histories_with_user_class_instances")
+        ctx.count("nested_inspect_frames_pumped", w.pump.pumped)
     ctx.count("history_steps", len(steps))
     ctx.case(("hist", tuple(steps)), nontrivial=crossings > 0 or script is not None)
     return steps
